@@ -2,7 +2,7 @@
 From Coq Require Import List NArith ZArith Bool.
 From Verif.Common Require Import Packet Ipt.
 From Coq Require Import Permutation.
-From Verif.C41 Require Import Model Spec ProofsRule ProofsSet ProofsOracle.
+From Verif.C41 Require Import Model Spec ProofsRule ProofsSet ProofsOracle ProofsCompose.
 Import ListNotations.
 Open Scope N_scope.
 
@@ -83,11 +83,32 @@ Theorem c41_shared_address_stays : forall ver h st dp id w a m,
 Proof. exact shared_address_stays. Qed.
 Print Assumptions c41_shared_address_stays.
 
+(* Set and rule together (the title of the property): once CompleteDeferredWork has run, with the no-flow-offload set
+   holding what the manager wrote (every other set and every out-of-packet match arbitrary), the rendered rule offloads
+   NO packet whose source or destination is a current address of an endpoint with DSCP marking or a connection/packet
+   rate limit, and no packet that is not already established. *)
+Theorem c41_no_bypass : forall ver h st dp,
+  wf_history ver h = true -> exec ver init None (h ++ [Flush]) st dp ->
+  exists ms, dp = Some ms /\
+  forall others oth p,
+    rule_offloads (env_with_set ms others oth) p offload_rule = true ->
+    already_established p = true /\ ~ excluded ver h (pk_src p) /\ ~ excluded ver h (pk_dst p).
+Proof. exact no_bypass. Qed.
+Print Assumptions c41_no_bypass.
+
 (* The executable run used in the correspondence check is one of these executions. *)
 Theorem c41_run_is_an_execution : forall ver ops st dp,
   exists dp', exec ver st dp ops (state_after ver st ops) dp'.
 Proof. exact exec_deterministic. Qed.
 Print Assumptions c41_run_is_an_execution.
+
+(* The multiset of members handed to the IP set does not depend on the iteration order of the two Go maps: this is
+   what lets the correspondence run compare sorted member lists. *)
+Theorem c41_members_order_independent : forall st ow oh,
+  Permutation ow (s_wep st) -> Permutation oh (s_hep st) ->
+  sortN (members_in ow oh) = sortN (members_in (s_wep st) (s_hep st)).
+Proof. exact members_order_independent. Qed.
+Print Assumptions c41_members_order_independent.
 
 (* The specification oracle of Spec.v (the one evaluated on the implementation's observed AddOrReplaceIPSet calls)
    accepts every run of the model: at every CompleteDeferredWork of every history the set the dataplane then holds has
@@ -98,7 +119,7 @@ Print Assumptions c41_model_meets_spec.
 
 Theorem c41_model_case_ok : forall ver h nft enabled,
   snd (check_case {| c_ver := ver; c_ops := h; c_outs := run ver init h; c_nft := nft; c_offload := enabled;
-                     c_rules := static_offload_rules nft enabled |}) = true.
+                     c_rules := static_offload_rules nft enabled; c_limits := [] |}) = true.
 Proof. exact model_case_ok. Qed.
 Print Assumptions c41_model_case_ok.
 
